@@ -83,6 +83,16 @@ func (d *D) NormAtom(cond ssa.Value, pol bool) Atom {
 	}
 	if b, ok := cond.(*ssa.BinOp); ok {
 		x, y := d.Of(b.X), d.Of(b.Y)
+		// T(v) == constT compares v with the constant in v's own type
+		if ct, ok := b.X.(*ssa.ChangeType); ok {
+			if f, ok := d.foldConv(b.Y, ct.X.Type()); ok {
+				x, y = d.Of(ct.X), f
+			}
+		} else if ct, ok := b.Y.(*ssa.ChangeType); ok {
+			if f, ok := d.foldConv(b.X, ct.X.Type()); ok {
+				x, y = f, d.Of(ct.X)
+			}
+		}
 		switch b.Op {
 		case token.EQL, token.NEQ:
 			if x > y {
